@@ -232,6 +232,43 @@ def execute(program, ctx, mode):
     from zope.interface import declarations as zd
     from zope.interface.adapter import AdapterRegistry
 
+    # Fault kind cb-raise in a change notification: in one world in three every class specification has a dependent that can be
+    # armed to raise once from its changed() callback.  The declaration call then fails half-way through the propagation; the
+    # caller (the wrappers below) repeats the very same call, which succeeds -- and after a successful declaration call
+    # everything must be exact again, also what the failed propagation had not reached.
+    class Injected(Exception):
+        pass
+    bombs = []
+    bomb_world = h64(program.get('seed') or 0, 'bomb-world') % 3 == 0
+
+    class Bomb:
+        armed = False
+
+        def changed(self, originally_changed):
+            if self.armed:
+                self.armed = False
+                ctx.fault('cb-raise-in-change-notification')
+                raise Injected()
+
+    def retrying(fn):
+        def wrapper(*a):
+            try:
+                return fn(*a)
+            except Injected:
+                ctx.probe('declaration-repeated-after-a-failed-notification')
+                return fn(*a)
+        return wrapper
+    _implementer, _implementer_only = implementer, implementer_only
+    classImplements = retrying(classImplements)
+    classImplementsOnly = retrying(classImplementsOnly)
+    classImplementsFirst = retrying(classImplementsFirst)
+
+    def implementer(*ifaces):          # noqa: F811
+        return retrying(_implementer(*ifaces))
+
+    def implementer_only(*ifaces):     # noqa: F811
+        return retrying(_implementer_only(*ifaces))
+
     W = program['world']
     ibases = W['ibases']
     M = DeclModel(ibases)
@@ -330,6 +367,10 @@ def execute(program, ctx, mode):
             spy = Spy(c)
             spies.append(spy)
             implementedBy(cls).subscribe(spy)
+        if bomb_world:
+            b_ = Bomb()
+            bombs.append(b_)
+            implementedBy(cls).subscribe(b_)
         M.classes[c]['slots'] = '__slots__' in ns
         M.classes[c]['meta'] = type(cls) is Meta        # (a metaclass is inherited from the bases: Python's rule, not the library's)
         if type(cls) is Meta:
@@ -559,6 +600,10 @@ def execute(program, ctx, mode):
             name = op['op']
             k = op.get('k', 0)
             primed = prime(k) if name not in ('gc', 'perm', 'query') else []
+            for b_ in bombs:
+                b_.armed = False
+            if bombs and name in ('cimpl', 'conly') and h64(k, 'arm-bomb') % 3 == 0:
+                bombs[h64(k, 'which-bomb') % len(bombs)].armed = True
             if name == 'gc':
                 n = gc.collect()
                 ctx.fault('gc')
@@ -794,6 +839,8 @@ def execute(program, ctx, mode):
                         ctx.log(step, 'q-directlyProvidedBy', o, names(directlyProvidedBy(obs[o])))
             else:
                 raise ValueError('unknown op %r' % (name,))
+            for b_ in bombs:
+                b_.armed = False
             if spies:
                 check_spies()
             if primed:
